@@ -129,6 +129,42 @@ def main():
                     continue
                 for _ in eng.explore(run):
                     nruns += 1
+    # every prefix length 0..40 on the reallocation path (cap == len: the prefix is copied by copyAsm) and with spare capacity
+    for dl in range(0, 41):
+        for (sname, dc) in (('exact%d' % dl, dl), ('spare%d' % dl, None)):
+            shapes_extra = (sname, dl, dc)
+            def run_prefix(e, dl=dl, dc=dc, sname=sname):
+                asmsym.aff_reset()
+                blk, _ = e.call(SM4 + '.NewCipher', [e.new_slice(key)])
+                aead, _ = e.call('(*%s.sm4CipherAsm).NewGCM' % SM4, [blk.v, 12, 16])
+                nonce = e.new_slice(list(range(1, 13)))
+                pl = 17
+                pt_b = few_sym(e, random.Random(ck.seed + dl), 'p', pl)
+                pre = [(0xA0 + i) & 0xff for i in range(dl)]
+                for (op, need) in (('Seal', pl + 16), ('Open', pl)):
+                    cap = dl + need if dc is None else dc
+                    d0 = e.new_slice(pre + [0xAA] * (cap - dl))
+                    dst = Slice(d0.obj, (), 0, dl, cap) if dl or cap else e.new_slice([])
+                    case = dict(op=op, pt=pl, tag=16, dst='prefix len %d cap %s' % (dl, 'len' if dc is not None else 'len+needed'), dl=dl, spare=dc is None)
+                    if op == 'Seal':
+                        out = e.call_outcome(AEAD + 'Seal', [aead.v, dst, nonce, e.new_slice(list(pt_b)), NILSLICE])
+                        if out.kind == 'panic':
+                            add('Seal.panic:prefix', 'Seal panics (%s) for a %d-byte dst prefix' % (out.panic.msg, dl), case)
+                            return
+                        got = e.slice_list(out.values)
+                        sealed = got[dl:]
+                        if len(got) != dl + need or not cells_equal(got[:dl], pre):
+                            add('Seal.append:prefix', 'Seal does not preserve a %d-byte dst prefix (cap %s)' % (dl, 'len' if dc is not None else 'len+needed'), case)
+                    else:
+                        o2 = e.call_outcome(AEAD + 'Open', [aead.v, dst, nonce, e.new_slice(list(sealed)), NILSLICE])
+                        if o2.kind == 'panic' or o2.values[1] is not None:
+                            add('Open.panic:prefix', 'Open fails for a %d-byte dst prefix' % dl, case)
+                            return
+                        g2 = e.slice_list(o2.values[0])
+                        if len(g2) != dl + pl or not cells_equal(g2[:dl], pre) or not cells_equal(g2[dl:], pt_b):
+                            add('Open.append:prefix', 'Open does not preserve a %d-byte dst prefix (cap %s)' % (dl, 'len' if dc is not None else 'len+needed'), case)
+            for _ in eng.explore(run_prefix):
+                nruns += 1
     # in-place idiom
     for pl in pls:
         def run_inplace(e, pl=pl):
@@ -222,9 +258,13 @@ def main():
     def replay(k, desc, case):
         ts = case.get('tag', 16)
         pl = case.get('pt', case.get('ct', ts) - ts if 'ct' in case else 17)
+        if 'dl' in case:
+            mk = 'func() []byte { d := make([]byte, %d, %s); for i := range d { d[i] = byte(0xA0 + i) }; return d }()' % (case['dl'], ('%d+need' % case['dl']) if case['spare'] else str(case['dl']))
         dstexpr = {'nil': '[]byte(nil)', 'empty': '[]byte{}', 'exact': '[]byte{1,2,3}', 'spare-enough': 'append(make([]byte, 0, 3+need), 1, 2, 3)',
                    'spare-large': 'append(make([]byte, 0, 400), 1, 2, 3)', 'spare-short': 'append(make([]byte, 0, 5), 1, 2, 3)',
                    'zero-len-cap': 'make([]byte, 0, need)'}.get(case.get('dst', 'nil'), '[]byte(nil)')
+        if 'dl' in case:
+            dstexpr = mk
         src = '''package sm4
 import ("testing"; "bytes"; "crypto/cipher")
 func TestVerifReplay(t *testing.T) {
@@ -287,4 +327,4 @@ func TestVerifReplay(t *testing.T) {
 
 
 if __name__ == '__main__':
-    main()
+    guarded_main('C10', main)
